@@ -145,6 +145,9 @@ impl StepOracle for C07Oracle {
                     let ok = match cx.intent {
                         Intent::Provide { pair, .. } if *pair == p && cx.rec.outcome.is_ok() => *d > 0,
                         Intent::Withdraw { pair, amount, .. } if *pair == p && cx.rec.outcome.is_ok() => *d == -(*amount as i128),
+                        // a holder burning its own LP at the token contract is the holder's cw20 operation, not an
+                        // operation of the AMM; the statement's supply rule is about the latter
+                        Intent::BurnLp { pair, amount } if *pair == p && cx.rec.outcome.is_ok() => *d == -(*amount as i128),
                         _ => false,
                     };
                     if !ok {
